@@ -46,6 +46,9 @@ def run(repo, rep, tier):
         ('a client', {
             'key_algorithms': ['ssh-ed25519', 'rsa-sha2-512'], 'kex_algorithms': ['curve25519-sha256', 'ext-info-c', 'kex-strict-c-v00@openssh.com'], 'encryption': ['aes256-ctr', 'aes128-ctr'], 'mac': ['hmac-sha2-256'], 'compression': ['none', 'zlib'],
             'host_keys': {}, 'dh_modulus_sizes': {}}, True),
+        ('a peer that repeats a name within a list (the policy lists what was advertised, repeats included)', {
+            'key_algorithms': ['ssh-ed25519', 'rsa-sha2-512', 'ssh-ed25519'], 'kex_algorithms': ['curve25519-sha256', 'curve25519-sha256@libssh.org', 'curve25519-sha256'], 'encryption': ['aes256-ctr', 'aes256-ctr'],
+            'mac': ['hmac-sha2-512', 'hmac-sha2-256', 'hmac-sha2-256'], 'compression': ['none'], 'host_keys': {'ssh-ed25519': {'hostkey_size': 256, 'ca_key_type': '', 'ca_key_size': 0}}, 'dh_modulus_sizes': {}}, False),
     ]
     loaded = {}
     for desc, peer_, client_ in RT_PEERS:
@@ -65,6 +68,10 @@ def run(repo, rep, tier):
         want_state = {'_host_keys': peer_['key_algorithms'], '_kex': peer_['kex_algorithms'], '_ciphers': peer_['encryption'], '_macs': peer_['mac'], '_banner': None, '_compressions': None, '_optional_host_keys': None,
                       '_allow_algorithm_subset_and_reordering': False, '_allow_larger_keys': False, '_server_policy': not client_,
                       '_dh_modulus_sizes': dict(peer_['dh_modulus_sizes']) or None}
+        from sa.abseval import Opaque as _OpaqueRT
+        opaque_ = sorted(k_ for k_ in want_state if isinstance(st_.get(k_), _OpaqueRT) or (isinstance(st_.get(k_), (list, tuple)) and any(isinstance(x_, _OpaqueRT) for x_ in st_.get(k_))))
+        if opaque_:     # an uncomputable loader step is "cannot decide", never a violation
+            raise AnalysisError('Policy.__init__: the loaded value of %s is computed by a construct the interpreter does not model (policy made from %s)' % (', '.join(opaque_), desc))
         diffs = ['%s is %r, the peer presented %r' % (k_, st_.get(k_), v_) for k_, v_ in want_state.items() if st_.get(k_) != v_]
         hs = st_.get('_hostkey_sizes')
         if peer_['host_keys']:
@@ -88,7 +95,7 @@ def run(repo, rep, tier):
                 rep.evals()
                 rep.check('roundtrip', 'the policy made from %s passes on that peer with no errors' % desc, verdict is True and not errs, ev_,
                           'the policy made from %s FAILS on that very peer (verdict %s, errors %s)' % (desc, verdict, [e_.get('mismatched_field') for e_ in errs]), stmt='same peer: %s' % desc)
-    rep.floor('roundtrip', 'peers written and re-loaded', len(RT_PEERS), 4)
+    rep.floor('roundtrip', 'peers written and re-loaded', len(RT_PEERS), 5)
 
     # ---- normalisation after loading only ADDS the fields create() trimmed; it never overwrites what the policy specifies ----
     nz = repo.func('policy', 'Policy._normalize_hostkey_sizes')
